@@ -192,6 +192,31 @@ def gen_random(rng, name, nletters):
     return c
 
 
+def gen_churn(rng, name, n):
+    """subscribers come and go (free-list reuse), some kicked before they leave; every newcomer then reads"""
+    mn = rng.choice([1, 2]); mx = rng.choice([0, mn, mn + 1, 4])
+    mode = rng.choice([0, 0, 1, 2])
+    letters = []
+    live, nxt = [], 0
+    for _ in range(n):
+        r = rng.random()
+        if (r < 0.3 or not live) and nxt < 12:
+            k = rng.random()
+            if k < 0.6 or not live: letters.append(("S", nxt, mode))
+            elif k < 0.8: letters.append(("Y", nxt, rng.choice(live)))
+            else: letters.append(("A", nxt, mode, rng.choice([0, 1, 2])))
+            live.append(nxt); nxt += 1
+        elif r < 0.42:
+            s = rng.choice(live)
+            if rng.random() < 0.6: letters.append(("K", s))
+            # finish a possibly started next() so that the destructor is legal, then leave
+            letters += [("N", s)] * rng.choice([0, 1, 2, 3])
+            letters.append(("L", s)); live.remove(s)
+        elif r < 0.62: letters.append(("P",))
+        else: letters.append(("N", rng.choice(live)))
+    return from_letters(name, mn, mx, letters)
+
+
 def boundary_cases():
     out = []
     b = 0
@@ -216,6 +241,11 @@ def boundary_cases():
         add(1, 0, [S0, N0, N0, ("K", 0), N0, P, N0])
         add(1, 0, [S0, P, N0, ("K", 0), N0])
         add(1, 0, [S0, ("L", 0), ("K", 0), ("S", 1, mode), P, N1, N1])
+        # the free list hands a kicked / parked-on subscriber's slot to a new subscriber
+        add(1, 0, [S0, ("K", 0), ("L", 0), ("S", 1, mode), P, N1, N1, N1, N1, N1])
+        add(1, 0, [S0, ("S", 1, mode), ("K", 1), ("K", 0), ("L", 0), ("L", 1), ("S", 2, mode), ("S", 3, mode), P,
+                   ("N", 2), ("N", 2), ("N", 3), ("N", 3), P, ("N", 2), ("N", 2), ("N", 3), ("N", 3)])
+        add(1, 0, [S0, P, N0, ("K", 0), N0, ("L", 0), ("A", 1, mode, 0), P, N1, N1, N1, N1])
         add(1, 0, [S0, N0, N0, ("D",), N0, ("K", 0), N0])
         # lag against max, min window, subscribe at a position
         for mn, mx in ((1, 1), (1, 2), (2, 2), (2, 3), (3, 5), (5, 5), (1, 0), (3, 0)):
@@ -268,6 +298,8 @@ def gen(seed, tier):
     n = 1200 if tier == "quick" else 12000
     for i in range(n):
         cases.append(gen_random(rng, "g%d" % i, rng.choice([6, 10, 16, 24, 40])))
+    for i in range(n // 4):
+        cases.append(gen_churn(rng, "h%d" % i, rng.choice([10, 20, 30])))
     if tier == "quick":
         cases += exhaustive(5, 0, [(1, 0)])
     else:
